@@ -25,6 +25,9 @@ R19.i  read-only configuration: outside the constructors, generator methods
 R19.h  distinct machines: nothing sampled with replacement (``choices``, a
        loop of single draws without removal / membership test) reaches
        ``Operation(machines=...)``.
+R19.j  no function of these modules modifies the object of a mutable default
+       argument (directly, through a local alias, or with ``+=``): the result
+       of a call must not depend on earlier calls.
 """
 
 from __future__ import annotations
@@ -46,6 +49,7 @@ MANIFEST = {
         "pass; the no-recirculation pool is per job with removal; the loops "
         "produce num_jobs x num_machines operations with range-drawn durations; the machine list of a flexible operation is never sampled with replacement; generating never rewrites the generator's configuration. "
         "Not decided: that sampled values lie in their ranges (values)."
+        " Also decided: no function of these modules accumulates into a mutable default argument."
     ),
     "note": "random.Random's determinism for a given seed and call order is trusted.",
     "technique": "interprocedural data-dependence (taint) of constructor arguments + RNG who-may-call sweep + attribute write discipline + loop-shape matching",
@@ -94,6 +98,9 @@ def dep_on(ctx, fi: FuncInfo, expr, names: set[str], depth=0) -> bool:
 
 def run(ctx):
     chk, repo = ctx.chk, ctx.repo
+    from .common import check_mutable_defaults
+
+    check_mutable_defaults(ctx, "R19.j", ("job_shop_lib.generation",), "the generation")
     for rid, txt in (
         ("R19.a", "the machines of every generated Operation depend on the num_machines of the generate call"),
         ("R19.b", "jobs >= machines (when required): sampled upper bound capped by num_jobs; explicit requests checked after num_jobs is known"),
@@ -328,7 +335,12 @@ def _find_roles(ctx, base, cone):
                     it = others[0]
     counter = namer = None
     for c in cone:
-        for m in c.methods.values():
+        for m_raw in c.methods.values():
+            # private steps (also those of a bundled state object) are undone
+            m = ctx.norm.flat(m_raw) if any(
+                isinstance(x, ast.Call) and isinstance(x.func, ast.Attribute) and isinstance(x.func.value, ast.Name) and x.func.value.id == "self"
+                and x.func.attr.startswith("_") for x in own_nodes(m_raw.node)
+            ) else m_raw
             incs = []
             for a in own_nodes(m.node):
                 tg = a.target if isinstance(a, ast.AugAssign) else a.targets[0] if isinstance(a, ast.Assign) and len(a.targets) == 1 else None
@@ -484,6 +496,22 @@ def _jobs_vs_machines(ctx, generate_raw):
         if isinstance(n, ast.Call) and isinstance(n.func, ast.Attribute) and n.func.attr == "randint" and len(n.args) == 2
     ]
     draws = [n for n in randints if from_attr(n.args[0], "num_machines_range") or from_attr(n.args[1], "num_machines_range")]
+    if len(draws) > 1:
+        # one draw per branch of the flag: the draw that runs only when fewer
+        # jobs than machines are allowed needs no cap
+        def under_flag(n):
+            child, cur = n, generate.module.parents.get(n)
+            while cur is not None and cur is not generate.node:
+                if isinstance(cur, ast.If):
+                    t = ast.unparse(cur.test)
+                    if t == f"self.{flag}" and child in cur.body:
+                        return True
+                    if t == f"not self.{flag}" and child in cur.orelse:
+                        return True
+                child, cur = cur, generate.module.parents.get(cur)
+            return False
+
+        draws = [d for d in draws if not under_flag(d)]
     if len(draws) != 1:
         raise AnalysisError("generate: sampling of the machine count from num_machines_range not recognised")
     lo, hi = draws[0].args
@@ -648,6 +676,10 @@ def _iterator(ctx, base):
                 return n
         return None
 
+    if store_of(it) is None:
+        it = ctx.norm.flat(it)  # the restart may sit in a private step
+    if store_of(init) is None:
+        init = ctx.norm.flat(init)
     w_it, w_init = store_of(it), store_of(init)
     r_ok = any(isinstance(n, ast.Return) and n.value is not None and ast.unparse(n.value) == "self" for n in own_nodes(it.node))
     if w_it is not None and initial_ok(it, w_it.value) and r_ok and w_init is not None and initial_ok(init, w_init.value):
